@@ -537,6 +537,8 @@ class Interp:
                 return SList(b.items * a)
         if isinstance(op, ast.Mod) and isinstance(a, str):
             return self.fresh_scalar("str", "fmt")  # formatted text: opaque
+        if isinstance(op, ast.Add) and ka == "str" and kb == "str":
+            return self.fresh_scalar("str", "concat")  # text built from opaque pieces: opaque
         if isinstance(op, (ast.BitOr, ast.BitAnd)) and ka == "bool" and kb == "bool":
             f = z3.Or if isinstance(op, ast.BitOr) else z3.And
             return self.mk(f(self.z(a), self.z(b)), "bool")
@@ -544,6 +546,8 @@ class Interp:
             d = dict(a.d)
             d.update(b.d)
             return SDict(d)
+        if isinstance(a, ExtObj) and a.kind in ("datetime", "timedelta") or isinstance(b, ExtObj) and b.kind in ("datetime", "timedelta"):
+            return ExtObj("datetime")
         if isinstance(a, SObj) or isinstance(b, SObj):
             return self.obj_binop(op, a, b, node)
         if ka not in ("int", "real", "bool") or kb not in ("int", "real", "bool"):
@@ -719,29 +723,48 @@ class Interp:
             return {ast.Lt: a < b, ast.LtE: a <= b, ast.Gt: a > b, ast.GtE: a >= b}[type(op)]
         if a is None or b is None:
             raise PyRaise("TypeError", node)
+        if isinstance(a, SObj) and isinstance(b, SObj) and a.cls is not None and a.cls.find_method("__lt__")[1] is None:
+            raise PyRaise("TypeError", node, msg="'<' not supported between instances")
         raise Unsupported("ordering comparison of %r and %r" % (a, b), node)
 
     def tuple_order(self, op, a, b, node):
-        # lexicographic comparison
+        """lexicographic comparison, evaluated lazily from the front as python does: later
+        elements are only compared when all earlier ones can be equal"""
+        is_lt = isinstance(op, (ast.Lt, ast.LtE))
         strict = isinstance(op, (ast.Lt, ast.Gt))
-        lt = ast.Lt() if isinstance(op, (ast.Lt, ast.LtE)) else ast.Gt()
-        res = None
-        n = min(len(a), len(b))
-        # build from the end
-        if len(a) == len(b):
-            tail = not strict
-        elif isinstance(op, (ast.Lt, ast.LtE)):
-            tail = len(a) < len(b)
-        else:
-            tail = len(a) > len(b)
-        res = tail
-        for i in range(n - 1, -1, -1):
+        lt = ast.Lt() if is_lt else ast.Gt()
+
+        def rec(i):
+            if i >= len(a) or i >= len(b):
+                if len(a) == len(b):
+                    return not strict
+                return (len(a) < len(b)) if is_lt else (len(a) > len(b))
             e = self.equal(a[i], b[i], node)
+            if not isinstance(e, bool):
+                e2 = z3.simplify(e)
+                if z3.is_true(e2):
+                    e = True
+                elif z3.is_false(e2):
+                    e = False
+            if e is True:
+                return rec(i + 1)
             l = self.compare(lt, a[i], b[i], node)
-            l = self.as_bool_term(l)
-            e = z3.BoolVal(e) if isinstance(e, bool) else e
-            r = z3.BoolVal(res) if isinstance(res, bool) else res
-            res = z3.Or(l, z3.And(e, r))
+            lz = l if isinstance(l, bool) else self.as_bool_term(l)
+            if e is False:
+                return lz
+            try:
+                rest = rec(i + 1)
+            except (PyRaise, Unsupported):
+                # the remaining components cannot be ordered (e.g. plain objects): python only looks
+                # at them when this component is equal -- decide that on this path
+                if self.nofork:
+                    raise
+                if self.branch(e, node):
+                    return rec(i + 1)
+                return lz
+            return self.disj([lz, self.conj([e, rest])])
+
+        res = rec(0)
         if isinstance(res, bool):
             return res
         return self.mk(res, "bool")
@@ -1125,6 +1148,14 @@ class Interp:
                 kk = self.dict_key(k)
                 if kk in c.d:
                     return c.d[kk]
+                fac = getattr(c, "default_factory", None)
+                if fac is not None and not (self.in_spec or self.nofork):
+                    v = self.call(fac, [], {}, node)
+                    c.d[kk] = v
+                    self.note_write(c)
+                    return v
+                if fac is not None:
+                    return self.call(fac, [], {}, node)
                 raise PyRaise("KeyError", node)
             # symbolic key into a concrete-key dict: compare with every key
             if isinstance(k, Sym):
@@ -1685,6 +1716,8 @@ class Interp:
             o = SDict()
             memo[id(v)] = o
             o.d = {k: self.snapshot(x, memo) for k, x in v.d.items()}
+            if getattr(v, "default_factory", None) is not None:
+                o.default_factory = v.default_factory
             return o
         if isinstance(v, SADict):
             o = SADict()
